@@ -35,7 +35,7 @@ CLAIMS = {
             "Pairs and triples of polynomials (small random ones, perturbed copies that differ below the leading term, and polynomials with up to 30 terms of equal total degree) are compared with all six operators through operator / numpy / numpoly spellings under the four sort settings, which are set in the real process and tracked by the option machine; TLC recomputes each verdict from the TLA+ definition of the order and demands a bool array of the broadcast shape with exactly those values; maximum/minimum must return the larger/smaller operand element.",
             "DESIGN.md section 6 C07"),
     "C08": ("TLA+ spec: registries as observations, 'same result' relation between spellings, FeatureNotSupported rule for everything numpoly does not register; TLC trace validation; the complete list of overridable numpy / numpy.linalg / numpy.fft functions, ufuncs and ufunc methods is probed on every run",
-            "(a) Registered operations are executed through two different spellings (operator, numpy function, numpoly function, method, ufunc.reduce / accumulate) and TLC demands identical type, shape, dtype, names and denotation, in addition to each being judged against the specification; /, % and divmod are bound to poly_divide / poly_remainder / poly_divmod in C05. (b) Every public numpy function that takes part in the __array_function__ protocol (found mechanically; `like=` creators excluded), every public ufunc and the methods reduce / accumulate / outer / at / reduceat of every binary ufunc are called with a polynomial (arguments synthesised from the signature, dispatch confirmed by a spy on __array_function__): unless numpoly's registries, read at run time, map the call, TLC requires FeatureNotSupported.",
+            "(a) Registered operations are executed through two different spellings (operator, numpy function, numpoly function, method, ufunc.reduce / accumulate) and TLC demands identical type, shape, dtype, names and denotation, in addition to each being judged against the specification; /, % and divmod are bound to poly_divide / poly_remainder / poly_divmod in C05.  Registry sweep: every entry of FUNCTION_COLLECTION (88 names; copyto, savetxt and the like=-only creators ones / zeros / full are exercised elsewhere or outside the claim) is called on one operand set as the registered numpy callable (dispatching through the override protocol) and as the public numpoly function, and TLC demands the same type, shape, dtype, names and values (or the same exception). (b) Every public numpy function that takes part in the __array_function__ protocol (found mechanically; `like=` creators excluded), every public ufunc and the methods reduce / accumulate / outer / at / reduceat of every binary ufunc are called with a polynomial (arguments synthesised from the signature, dispatch confirmed by a spy on __array_function__): unless numpoly's registries, read at run time, map the call, TLC requires FeatureNotSupported.",
             "DESIGN.md section 6 C08"),
     "C09": ("TLA+ spec; gather maps observed from numpy on label arrays and, for the core functions, defined in TLA+ and cross-checked; TLC trace validation",
             "Every shape function / index expression is executed on arrays of pairwise distinct polynomials; the movement of positions numpy performs is observed on integer label arrays (and for reshape, transpose, concatenate and basic indexing also computed from the TLA+ gather maps of Shape.tla and compared), and TLC checks that each result element is exactly the operand element that numpy puts there, that names and dtype are preserved, plus the global clauses.",
